@@ -1608,7 +1608,7 @@ package engine
 
 //@ ---------------------------------------------------------------- the binding store and unification (C02)
 
-//@ type Env immutable
+//@ type Env immutable defined-by U on mhas touched inv I
 
 //@ func Unify
 //@   property C02
@@ -1645,18 +1645,37 @@ package engine
 //@ func newEnvKey
 //@   property C02
 //@   enc bv
+//@   pure
+//@   modifies nothing
 //@   wraps k * -1
 //@   ensures[key] result == keyOf(v)
 //@   claim[distinct-variables-have-distinct-keys] forall a Variable, b Variable :: keyOf(a) == keyOf(b) ==> a == b
 
-//@ spec abstract bound(e *Env, v Variable) bool
-//@ spec abstract valueOf(e *Env, v Variable) Term
+//@ -- the binding store as a finite map from keys to terms: mhas/mval are the abstract view of a tree node; U is the
+//@ -- unfolding of that view over the node's fields. Nodes that exist when a function is entered satisfy it (axiom,
+//@ -- justified by: a fresh node's view is defined by U when it is published, and `immutable`); see DESIGN.md 5 C02.
+//@ spec abstract mhas(n *Env, k int) bool
+//@ spec abstract mval(n *Env, k int) Term
+//@ spec abstract touched(n *Env) bool
+//@ spec fun U(n *Env, k int) bool =
+//@     (n == nil ==> !mhas(n, k)) &&
+//@     (n != nil ==> (k < n.binding.key ==> mhas(n, k) == mhas(n.left, k) && mval(n, k) == mval(n.left, k)) &&
+//@                   (k > n.binding.key ==> mhas(n, k) == mhas(n.right, k) && mval(n, k) == mval(n.right, k)) &&
+//@                   (k == n.binding.key ==> mhas(n, k) && mval(n, k) == n.binding.value))
+//@ -- I: the keys a node's view has on its left are smaller than the node's key, those on its right greater (search tree)
+//@ spec fun I(n *Env, k int) bool = n != nil ==> (mhas(n.left, k) ==> k < n.binding.key) && (mhas(n.right, k) ==> k > n.binding.key)
+//@ axiom[published-nodes-unfold] forall n *Env, m *Env, k int :: triggered(touched(n), mhas(m, k), !fresh(n) ==> U(n, k) && I(n, k) && (n != nil ==> !fresh(n.left) && !fresh(n.right)))
+
+//@ spec fun root(e *Env) *Env = ite(e == nil, rootEnv, e)
+//@ spec fun bound(e *Env, v Variable) bool = mhas(root(e), keyOf(v))
+//@ spec fun valueOf(e *Env, v Variable) Term = mval(root(e), keyOf(v))
 
 //@ func (*Env).lookup
-//@   trusted
+//@   property C02
 //@   modifies nothing
-//@   ensures result1 == bound(e, v)
-//@   ensures result1 ==> result0 == valueOf(e, v) && result0 != nil
+//@   loop 1 invariant !fresh(node) && mhas(node, keyOf(v)) == mhas(root(e), keyOf(v)) && mval(node, keyOf(v)) == mval(root(e), keyOf(v))
+//@   ensures[found-iff-bound] result1 == bound(e, v)
+//@   ensures[the-value-it-is-bound-to] result1 ==> result0 == valueOf(e, v)
 
 //@ func contains
 //@   property C02
@@ -1672,12 +1691,37 @@ package engine
 //@       (result <==> exists j int :: 0 <= j && j < Compound.Arity(t as Compound) && contains(Compound.Arg(t as Compound, j), s, env))
 //@   ensures[atomic] !(t is Variable) && !(t is Compound) ==> result == (t == s)
 
-//@ func (*Env).bind
-//@   trusted
+//@ -- balance rearranges a node that its caller has just built (and published: its view is defined) so that the view of
+//@ -- the node is the same for every key
+//@ func (*Env).balance
+//@   property C02
+//@   requires e != nil
+//@   modifies *e
+//@   hint mhas(e, e.binding.key)
+//@   hint mhas(e, e.left.binding.key)
+//@   hint mhas(e, e.right.binding.key)
+//@   hint mhas(e, e.left.left.binding.key)
+//@   hint mhas(e, e.left.right.binding.key)
+//@   hint mhas(e, e.right.left.binding.key)
+//@   hint mhas(e, e.right.right.binding.key)
+//@   ensures[the-view-of-the-node-is-unchanged] forall q int :: triggered(mhas(e, q), U(e, q))
+//@   ensures[the-node-is-still-a-search-tree] forall q int :: triggered(mhas(e, q), I(e, q))
+
+//@ func (*Env).insert
+//@   property C02
 //@   modifies nothing
+//@   ensures[a-new-node] result != nil && fresh(result)
+//@   ensures[the-map-updated-at-the-key] forall q int :: triggered(mhas(result, q), mhas(result, q) == (q == k || mhas(e, q)) && (q == k ==> mval(result, q) == v) && (q != k ==> mval(result, q) == mval(e, q)))
+
+//@ func (*Env).bind
+//@   property C02
+//@   modifies nothing
+//@   uses newEnvKey:distinct-variables-have-distinct-keys
 //@   ensures result != nil
-//@   ensures bound(result, v) && valueOf(result, v) == t
-//@   ensures forall w Variable :: w != v ==> bound(result, w) == bound(e, w) && valueOf(result, w) == valueOf(e, w)
+//@   ensures[the-variable-is-bound-to-the-term] bound(result, v) && valueOf(result, v) == t
+//@   ensures[nothing-else-changes] forall w Variable :: w != v ==> bound(result, w) == bound(e, w) && valueOf(result, w) == valueOf(e, w)
+//@   ensures[the-map-updated-at-the-key-of-the-variable] forall q int :: triggered(mhas(result, q), mhas(result, q) == (q == keyOf(v) || mhas(root(e), q)) &&
+//@       (q == keyOf(v) ==> mval(result, q) == t) && (q != keyOf(v) ==> mval(result, q) == mval(root(e), q)))
 
 //@ func (*Env).unify
 //@   property C02
@@ -1697,8 +1741,8 @@ package engine
 //@   ensures[occurs-check] rx is Variable && rx != ry && occursCheck && contains(ry, rx, e) ==> !result1 && result0 == e
 //@   ensures[binds-the-variable-to-the-other-side] rx is Variable && rx != ry && !(occursCheck && contains(ry, rx, e)) ==>
 //@       result1 && bound(result0, rx as Variable) && valueOf(result0, rx as Variable) == ry
-//@   ensures[binds-nothing-else] rx is Variable && rx != ry && !(occursCheck && contains(ry, rx, e)) ==>
-//@       forall w Variable :: w != (rx as Variable) ==> bound(result0, w) == bound(e, w) && valueOf(result0, w) == valueOf(e, w)
+//@   ensures[binds-nothing-else] rx is Variable && rx != ry && !(occursCheck && contains(ry, rx, e)) ==> result0 != nil &&
+//@       forall q int :: triggered(mhas(result0, q), q != keyOf(rx as Variable) ==> mhas(result0, q) == mhas(root(e), q) && mval(result0, q) == mval(root(e), q))
 //@   ensures[atomic-terms-unify-iff-identical] !(rx is Variable) && !(rx is Compound) && !(ry is Variable) ==> result1 == (rx == ry) && result0 == e
 //@   ensures[compound-against-atomic] rx is Compound && !(ry is Variable) && !(ry is Compound) ==> !result1 && result0 == e
 //@   ensures[different-principal-functor] rx is Compound && ry is Compound &&
